@@ -92,6 +92,19 @@ pub fn one_case(rep: &Report, idx: usize, case: &CCase, inj: &Injection, reader_
             spec.seed_output = true;
             rep.count("clones_in_place_over_older_version(--seed-output)", 1);
         }
+        // One clone in sixteen goes onto a block device that fits the source exactly (a
+        // partition sized for the image; via the is_block_dev hook on a regular file).
+        let mut onto_device = false;
+        if reader_sel & 0xc0 != 0xc0 && reader_sel & 0xe00 != 0xe00 && reader_sel & 0xf000 == 0xf000 && !source.is_empty() {
+            std::fs::write(&out_path, Rng::new(reader_sel ^ 0xde1).bytes(source.len())).map_err(|e| e.to_string())?;
+            if reader_sel & 0x10000 != 0 {
+                spec.force = true;
+            } else {
+                spec.seed_output = true;
+            }
+            onto_device = true;
+            rep.count("clones_onto_exactly_fitting_block_device(hook)", 1);
+        }
         let server;
         let who;
         if reader_sel & 1 == 0 {
@@ -127,6 +140,9 @@ pub fn one_case(rep: &Report, idx: usize, case: &CCase, inj: &Injection, reader_
             who = "cli-http";
             let mut run = Run::new(&dir, "clone", scn::clone_args(&spec));
             run.watch = vec![out_path.clone()];
+            if onto_device {
+                run.blockdev = Some(out_path.clone());
+            }
             if reader_sel & 32 != 0 {
                 run.hook_delay = Some(format!("{},{},chunk.", inj.seed, 800u64.min(300_000 / nchunks.max(1) as u64)));
             }
@@ -137,6 +153,9 @@ pub fn one_case(rep: &Report, idx: usize, case: &CCase, inj: &Injection, reader_
         }
         let mut run = Run::new(&dir, "clone", scn::clone_args(&spec));
         run.watch = vec![out_path.clone()];
+        if onto_device {
+            run.blockdev = Some(out_path.clone());
+        }
         if reader_sel & 32 != 0 {
             run.hook_delay = Some(format!("{},{},chunk.", inj.seed, 800u64.min(300_000 / nchunks.max(1) as u64)));
             run.workers = inj.workers;
